@@ -167,6 +167,10 @@ func (m *Machine) verifrt(name string, args []Value, g *Term, site ssa.Instructi
 			m.runGo(t, g)
 		}
 		return nil
+	case "DuringSleep":
+		// DuringSleep(k, period, f): f runs while the code under test is in its k-th time.Sleep from now
+		m.sleepHooks = append(m.sleepHooks, sleepHook{k: m.sleepN + int(m.argInt(args[0], name)), f: args[2].(*FuncV)})
+		return nil
 	case "RunPendingNamed":
 		// run only the recorded go tasks whose function name contains the given text
 		want := m.argStr(args[0], name)
